@@ -880,9 +880,11 @@ int main (void)
       for (; c >= 1; c--) nice_agent_attach_recv (g->agent, sid, c, ctx, cb_recv, NULL);
       puts ("ok");
     }
-    else if (!strcmp (w[0], "gather") && n == 3 && (g = find_ag (w[1]))) {
+    else if (!strcmp (w[0], "gather") && (n == 3 || n == 4) && (g = find_ag (w[1]))) {
+      /* `gather A 1 noiter`: return to the application without running the main loop (asynchronous work such as the
+       * resolution of the STUN server name is still pending when the next call is made) */
       gboolean r = nice_agent_gather_candidates (g->agent, atoi (w[2]));
-      total_dispatches += iterate_ready ();
+      if (n == 3) total_dispatches += iterate_ready ();
       printf ("ok ret %d\n", r);
     }
     else if (!strcmp (w[0], "creds") && n == 5) {
